@@ -191,6 +191,10 @@ theorem good_envGet {e n} : Good (envGet e n) := by unfold envGet; good
 macro_rules | `(tactic| good_lemma) => `(tactic| with_reducible exact good_envGet)
 theorem good_envCreate {e n v} : Good (envCreate e n v) := by unfold envCreate; good
 macro_rules | `(tactic| good_lemma) => `(tactic| with_reducible exact good_envCreate)
+theorem good_functionChanged {w o} : Good (functionChanged w o) := by unfold functionChanged; good
+macro_rules | `(tactic| good_lemma) => `(tactic| with_reducible exact good_functionChanged)
+theorem good_envStoreAt {w e n v} : Good (envStoreAt w e n v) := by unfold envStoreAt; good
+macro_rules | `(tactic| good_lemma) => `(tactic| with_reducible exact good_envStoreAt)
 theorem good_envUpdate {e n f v} : Good (envUpdate e n f v) := by unfold envUpdate; good
 macro_rules | `(tactic| good_lemma) => `(tactic| with_reducible exact good_envUpdate)
 theorem good_setNoChecks {e n v c} : Good (setNoChecks e n v c) := by unfold setNoChecks; good
